@@ -575,6 +575,36 @@ pub fn run(cfg: &RunCfg) -> CheckReport {
     if rep.has_violation() {
         return rep;
     }
+    // str vs bytes on long texts (block / chunk boundaries, > 100 tokens) and on the rich atoms
+    let mut lt: Vec<(String, String)> = super::richtext::long_pairs(&super::large::all(cfg.tier, cfg.seed), cfg.tier.pick(130, 300))
+        .into_iter()
+        .map(|(_, a, b)| (a, b))
+        .collect();
+    let valid_atoms: Vec<String> = super::richtext::atoms()
+        .into_iter()
+        .filter_map(|a| String::from_utf8(a).ok())
+        .collect();
+    for a in &valid_atoms {
+        for b in valid_atoms.iter().step_by(5) {
+            lt.push((format!("x {} y\n", a), format!("x {} y\n{}", b, a)));
+        }
+    }
+    let ex = explore(cfg, lt.len(), |shard, acc| {
+        let (old, new) = &lt[shard];
+        match check_str_bytes(old, new) {
+            Ok((nt, n, fp)) => {
+                if shard % 101 == 0 {
+                    acc.sample(json!({"old_bytes": old.len(), "new_bytes": new.len()}));
+                }
+                acc.ok(nt, n, fp);
+            }
+            Err(e) => acc.violation(|| (json!({"part": "str-bytes", "old_text": old, "new_text": new}), e)),
+        }
+    });
+    rep.part("str-bytes-long-and-rich", json!({"pairs": lt.len(), "note": "enumerated family"}), ex);
+    if rep.has_violation() {
+        return rep;
+    }
 
     // supplementary free-running pass
     match free_running(&space, 16) {
